@@ -34,7 +34,8 @@ class FakeSock:
     def __init__(self, segments, recv_fault=None, send_fail_at=None, send_errno=errno.EPIPE,
                  eof_kind="eof"):
         self.segs = list(segments)
-        self.pending = b""
+        self._buf = b""                     # (not "pending": that is a method of TLS sockets)
+        self.readable = True                # the poller reported the socket readable (consumed by the next new segment)
         self.wire = bytearray()
         self.closed = 0
         self.shut = False
@@ -58,18 +59,23 @@ class FakeSock:
             self.recv_after_send = True
         if self.recv_fault and self.nrecv > self.recv_fault[0]:
             raise OSError(self.recv_fault[1], os.strerror(self.recv_fault[1]))
-        if not self.pending:
+        if not self._buf:
+            # a new segment is needed.  Segments arrive separated in time: a socket left in non-blocking mode only has
+            # what the poller announced; asking for more raises EAGAIN (a blocking socket waits for the next segment)
+            if not self.blocking and not self.readable:
+                raise BlockingIOError(errno.EAGAIN, "Resource temporarily unavailable")
+            self.readable = False
             if not self.segs:
                 if self.eof_kind == "reset":
                     raise OSError(errno.ECONNRESET, "Connection reset by peer")
                 return b""
-            self.pending = self.segs.pop(0)
-        out, self.pending = self.pending[:n], self.pending[n:]
+            self._buf = self.segs.pop(0)
+        out, self._buf = self._buf[:n], self._buf[n:]
         self.delivered += len(out)
         return out
 
     def more_input(self):
-        return bool(self.pending or self.segs)
+        return bool(self._buf or self.segs)
 
     # -- writing
     def _accept(self, data):
@@ -240,7 +246,9 @@ def serve(kind, cfg, segments, app, peer=("127.0.0.1", 45678), worker=None, maxl
             r.kept = True
             while r.loops < maxloops:
                 r.loops += 1
-                conn.init()
+                # the main loop dispatches the connection because the poller reported its socket readable;
+                # handle() itself calls conn.init() (blocking mode, TLS wrap, parser)
+                sock.readable = True
                 fs = futures.Future()
                 fs.conn = conn
                 try:
